@@ -4,7 +4,7 @@ from concurrent.futures import ThreadPoolExecutor
 from .. import common, corpus, gen_table as G
 
 THEOREMS = ["Lou.C12.arena_alloc_inv", "Lou.C12.arena_objects_disjoint", "Lou.C12.index_get_sound",
-            "Lou.C12.checkImage_sound", "Lou.C12.checkTable_sound", "Lou.C12.lookup_complete",
+            "Lou.C12.checkImage_sound", "Lou.C12.checkTable_sound", "Lou.C12.checkTable_defsFound", "Lou.C12.lookup_complete",
             "Lou.C12.lookup_complete_char", "Lou.C12.fwd_chain_pairwise", "Lou.C12.fwd_buckets_disjoint",
             "Lou.C12.compileEntry_invF", "Lou.C12.compile_consistent", "Lou.C12.compile_consistent_unfinalised",
             "Lou.Chain.insR_sorted", "Lou.C12.insR_charSorted"]
@@ -209,7 +209,7 @@ def run(tier):
     cases = []
     dist = {"shipped_tables": 0, "shipped_not_compilable": 0, "generated_tables": 0, "generated_rejected": 0,
             "addition_sequences": 0, "additions": 0, "additions_accepted": 0, "snapshots": 0, "reallocations_during_additions": 0,
-            "objects_checked": 0, "references_checked": 0, "pass_references": 0, "pattern_objects": 0, "hyphenation_tables": 0,
+            "objects_checked": 0, "references_checked": 0, "indicator_slots": 0, "pass_references": 0, "pattern_objects": 0, "hyphenation_tables": 0,
             "reservations_explained": 0, "context_rules_refiled": 0, "collision_buckets": 0, "kinds": {}}
     # ---- shipped tables
     shipped = corpus.quick_tables() if quick else corpus.all_tables()
@@ -229,6 +229,78 @@ def run(tier):
     for nm, txt in (("f6g.ctb", F6_TABLE), ("f6s.ctb", F6_SWAP), ("rebucket.ctb", REBUCKET), ("far.ctb", FAR)):
         cases.append(common.Case("fix-" + nm, ["HOOK arena 1", "TBL %s %s" % (nm, common.hexbytes(txt))],
                                  ["CHK " + nm, "DUMP " + nm, "RAWDUMP " + nm], {"kind": "fixed", "name": nm, "text": txt}))
+    # ---- indicator slots: up to 6 modes besides capitals (5 exist: the sixth is refused), up to 11 emphasis classes (10 exist), every
+    # indicator opcode of each, the computer-braille and sign indicators, a hyphenation dictionary behind the slot rows
+    def slots_table(k):
+        L = ["space \\s 0", "lowercase a 1", "lowercase b 12", "uppercase A 17", "digit 1 2", "punctuation . 256", "include slots.dic"]
+        nm = [1, 3, 5, 5, 6, 4][k % 6] if k < 6 else rng.choice([1, 2, 3, 4, 5, 5, 5, 6])
+        ne = [0, 2, 10, 11, 10, 9][k % 6] if k < 6 else rng.choice([0, 3, 8, 9, 10, 10, 11])
+        def cells():
+            return "-".join("".join(sorted(rng.sample("123456", rng.randint(1, 3)))) for _ in range(rng.randint(1, 2)))
+        mode_ops = ["modeletter", "begmodeword", "endmodeword", "begmode", "endmode", "begmodephrase", "endmodephrase", "lenmodephrase"]
+        emph_ops = ["emphletter", "begemphword", "endemphword", "begemph", "endemph", "begemphphrase", "endemphphrase", "lenemphphrase"]
+        blocks = []
+        for m in range(nm):
+            att = "digit" if (m == 0 and rng.random() < 0.5) else "md" + "abcdefgh"[m]
+            b = [] if att == "digit" else ["attribute %s %s" % (att, "ab"[m % 2])]
+            for op in (mode_ops if (k < 6 or rng.random() < 0.5) else rng.sample(mode_ops, rng.randint(1, 8))):
+                if op == "endmodephrase":
+                    b.append("%s %s %s %s" % (op, att, rng.choice(["before", "after"]), cells()))
+                elif op == "lenmodephrase":
+                    b.append("%s %s %d" % (op, att, rng.randint(1, 4)))
+                else:
+                    b.append("%s %s %s" % (op, att, cells()))
+            blocks.append(b)
+        for e in range(ne):
+            nme = (["italic", "underline", "bold"] + ["ec" + x for x in "abcdefghijkl"])[e]
+            L.append("emphclass " + nme)     # the first three names and their order are fixed by the compiler
+            b = []
+            # a class has either the indicators without context (begemph/endemph) or those for words and phrases
+            style = (["emphletter", "begemph", "endemph"] if (e + k) % 3 == 0 else
+                     ["emphletter", "begemphword", "endemphword", "begemphphrase", "endemphphrase", "lenemphphrase"])
+            for op in (style if (k < 6 or rng.random() < 0.5) else rng.sample(style, rng.randint(1, len(style)))):
+                if op == "endemphphrase":
+                    b.append("%s %s %s %s" % (op, nme, rng.choice(["before", "after"]), cells()))
+                elif op == "lenemphphrase":
+                    b.append("%s %s %d" % (op, nme, rng.randint(1, 4)))
+                elif op in ("endemph", "endemphword") and rng.random() < 0.3:
+                    continue
+                else:
+                    b.append("%s %s %s" % (op, nme, cells()))
+            blocks.append(b)
+        blocks.append(["capsletter 6", "begcapsword 6-6", "endcapsword 6-3", "begcaps 6-6-6", "endcaps 6-36", "begcapsphrase 56-6",
+                       "endcapsphrase %s 56-3" % rng.choice(["before", "after"]), "lencapsphrase 3"])
+        blocks.append(["begcomp 456-346", "endcomp 456-156"])
+        blocks.append(["letsign 56", "numsign 3456", "nocontractsign 56-56", "nonumsign 56-3", "undefined 3456-1456"])
+        if k >= 3:
+            rng.shuffle(blocks)
+        return "\n".join(L + [x for b in blocks for x in b]) + "\n"
+    for k in range(8 if quick else 200):
+        nm_ = "slots%d.ctb" % k
+        txt = slots_table(k)
+        cases.append(common.Case("fix-" + nm_, ["HOOK arena 1", "TBL slots.dic " + common.hexbytes("UTF-8\na1b\n1ba\n"),
+                                                "TBL %s %s" % (nm_, common.hexbytes(txt))],
+                                 ["CHK " + nm_, "DUMP " + nm_, "RAWDUMP " + nm_], {"kind": "fixed", "name": nm_, "text": txt}))
+    # ---- cells that share one bucket of the cell table (values equal modulo HASHNUM need virtual dots 9..f): chains of
+    # 4 to 7 records, some added at run time (every table already has 0xffff and, when used, dots 478 in bucket 401)
+    def dots_of(v):
+        return "".join("123456789abcdef"[b] for b in range(15) if v >> b & 1) or "0"
+    for k in range(4 if quick else 80):
+        res = 401 if k % 2 == 0 else rng.randrange(1123)
+        vals = [x for x in range(0x8001, 0xffff) if x % 1123 == res]
+        rng.shuffle(vals)
+        vals = vals[:rng.randint(4, 7)]
+        chars = rng.sample(range(0x2460, 0x24ff), len(vals))
+        lines = ["space \\s 0", "sign a 1"] + ["sign \\x%04x %s" % (c, dots_of(x)) for c, x in zip(chars, vals)]
+        ninfile = rng.randint(1, len(vals) - 1)
+        nm_ = "cellcol%d.ctb" % k
+        txt = "\n".join(lines[:2 + ninfile]) + "\n"
+        ops = ["CHK " + nm_]
+        for l in lines[2 + ninfile:]:
+            ops += ["ADD %s %s" % (nm_, common.hexbytes(l)), "DUMP %s nofinal" % nm_, "RAWDUMP %s nofinal" % nm_]
+        ops += ["DUMP " + nm_, "RAWDUMP " + nm_]
+        cases.append(common.Case("fix-" + nm_, ["HOOK arena 1", "TBL %s %s" % (nm_, common.hexbytes(txt))], ops,
+                                 {"kind": "fixed", "name": nm_, "text": txt + "# added at run time:\n" + "\n".join(lines[2 + ninfile:])}))
     # ---- generated tables
     ngen = 110 if quick else 16000
     kinds = ["onetoone", "f0", "multipass", "mixed", "extras", "extras"]
@@ -404,6 +476,7 @@ def run(tier):
                 tags.append((s, "arena-" + which, (ob, nres)))
                 dist["objects_checked"] += len(ob)
                 dist["references_checked"] += part.count(" | r ")
+                dist["indicator_slots"] += part.count(" slot:")
                 if which == "t":
                     dist["pass_references"] += part.count(" passref:")
                     dist["pattern_objects"] += part.count(" | r pattern ")
